@@ -147,7 +147,7 @@ func c02Jobs(thorough bool) []c02Job {
 		}
 	}
 	for _, sch := range []string{"", "https"} {
-		for _, p := range []string{"", "/a/b"} {
+		for _, p := range []string{"", "/a/b", "\"/v1/m?f=p#x%2Fy\""} {
 			for params := 0; params < 3; params++ {
 				for _, pg := range progs {
 					out = append(out, c02Job{sch, p, params, pg})
